@@ -17,6 +17,9 @@ func c17ReadFile(name string) ([]byte, error) {
 	return []byte("SENTINEL"), nil
 }
 
+// c17Getwd stands for the working directory in the symbolic run.
+func c17Getwd() (string, error) { return "/w", nil }
+
 // c17Norm: reference normaliser - absolute segment stack of p relative to cwd.
 func c17Norm(cwd, p string) []string {
 	if len(p) == 0 || p[0] != '/' {
@@ -66,9 +69,9 @@ var c17Roots = []string{"/w/r", "/w/r/", "r", "./r", ".", "r/s", "/w", "/w/r/../
 func VerifC17Resolve() {
 	n := zz.Param("N", 4)
 	p := zz.Bytes("p", n)
-	alpha := "a./"
+	alpha := "ar./" // 'r' is the first letter of the root directory names: siblings sharing the root's name prefix are in
 	if zz.Param("ALPHA", 0) == 1 {
-		alpha = "ab./ "
+		alpha = "arb./ "
 	}
 	for i := range p {
 		zz.Assume(zz.OneOf(p[i], alpha))
@@ -80,6 +83,7 @@ func VerifC17Resolve() {
 		c17NativeResolve(root, string(p))
 		return
 	}
+	zz.Replace("os.Getwd", c17Getwd)
 	zz.Replace("io/ioutil.ReadFile", c17ReadFile)
 	zz.Replace("os.ReadFile", c17ReadFile)
 	c17OpenCount = 0
